@@ -118,6 +118,9 @@ def usable_seed(seed, root=None):
 HIST_OPS = MUT_OPS + [["dfg", ["B"], ["B", "I"]], ["dfg", [], []], ["case", ["B"], ["B"]], ["input", ["B", "I"]],
                       ["output", ["B"]], ["module"]]
 HIST_ROOTS = [["module"], ["module"], ["dfg", ["B"], ["B"]], ["case", [], ["I"]]]
+# (seeded round 2) only in the palette of the widened cases, so that the stream of the others is the one of before:
+# operation attributes no builder sets by default (seeded C02-b: the extension delta of a DFG)
+WIDE_OPS = [["dfg", ["B"], ["B"], ["verif.ext", "a.b"]], ["dfg", [], ["I"], ["verif.ext"]]]
 
 
 def mk_mut_op(spec):
@@ -134,6 +137,8 @@ def mk_mut_op(spec):
                   "listnat": [tys.ListParam(tys.BoundedNatParam()), tys.TupleParam([tys.BoundedNatParam(), tys.BoundedNatParam(3)])]}[spec[2]]
         return ops.FuncDecl(spec[1], tys.PolyFuncType(params, tys.FunctionType([tys.Bool], [tys.Bool])))
     if k == "dfg":
+        if len(spec) > 3:       # with an extension delta (third constructor argument)
+            return ops.DFG([progs.mk_ty(t) for t in spec[1]], [progs.mk_ty(t) for t in spec[2]], list(spec[3]))
         return ops.DFG([progs.mk_ty(t) for t in spec[1]], [progs.mk_ty(t) for t in spec[2]])
     if k == "case":
         return ops.Case([progs.mk_ty(t) for t in spec[1]], [progs.mk_ty(t) for t in spec[2]])
@@ -1285,6 +1290,11 @@ class RT(fw.Prop):
                 ["add_link", 1, 0, 2, 0], ["ser", "json"], ["edit_op", 2, ["tag"], ["int", 0]],
                 ["edit_op", 2, ["sum_ty", "variant_rows", 1, 0], ["ty", "I"]], ["edit_op", 1, ["types", 0], ["ty", "U"]]]},
             P("ser_then_set_outputs"),
+            # seeded C02-b: the extension delta of a DFG (root and nested) is an attribute of the operation
+            {"kind": "hist", "root": ["dfg", ["B"], ["B"], ["verif.ext"]], "muts": [
+                ["add_node", ["input", ["B"]], 0, None, None], ["add_node", ["output", ["B"]], 0, None, None],
+                ["add_node", ["dfg", ["B"], ["B"], ["verif.ext", "a.b"]], 0, {"k": 0}, None], ["add_link", 1, 0, 3, 0],
+                ["add_link", 3, 0, 2, 0]]},
             {"kind": "pkg", "progs": ["poly_func", "two_consts"], "ext": True},
             {"kind": "ext", "which": "custom"},
             # a lowering HUGR inside an extension must be a wire-format document (FixedHugr, fixed c8729f5);
@@ -1347,7 +1357,8 @@ class RT(fw.Prop):
             return run_muts(h, copy.deepcopy(case["muts"]))
         hist = case["kind"] == "hist"
         return gen_muts(random.Random(case["mseed"]), h, case["nmuts"], off_port=case.get("off_port", False),
-                        reuse=case.get("reuse", False), palette=HIST_OPS if hist else MUT_OPS, inserts=True,
+                        reuse=case.get("reuse", False),
+                        palette=(HIST_OPS if hist else MUT_OPS) + (WIDE_OPS if case.get("wide") else []), inserts=True,
                         wide=case.get("wide", 0))
 
     def build(self, case):
